@@ -2519,6 +2519,62 @@ def systematic_cases(ctx):
     return out
 
 
+# (type, definition with {N} = defined name and {R} = referenced name, a valid value, uses that resolve {N}: (phase, line))
+REF_DEFS = [
+    ('string', 'def string {N} = "a @[{R}]@ b"', 'plain', [('[setup]', 'file u.txt = @[{N}]@'), ('[act]', '% echo @[{N}]@'), ('[assert]', 'stdout equals @[{N}]@')]),
+    ('string', 'def string {N} = @[{R}]@', 'plain', [('[cleanup]', 'env V = @[{N}]@'), ('[assert]', 'exit-code == @[{N}]@')]),
+    ('list', 'def list {N} = x @[{R}]@ y', 'a b', [('[setup]', '% echo @[{N}]@'), ('[act]', '% echo @[{N}]@')]),
+    ('path', 'def path {N} = @[{R}]@/sub', '-rel-act p', [('[assert]', 'exists @[{N}]@'), ('[act]', '% echo -existing-path @[{N}]@')]),
+    ('path', 'def path {N} = -rel {R} sub', '-rel-tmp p', [('[setup]', 'dir @[{N}]@'), ('[cleanup]', 'cd -rel {N} .')]),
+    ('integer-matcher', 'def integer-matcher {N} = {R} && > 0', '== 0', [('[assert]', 'exit-code {N}'), ('[assert]', 'stdout num-lines {N}')]),
+    ('integer-matcher', 'def integer-matcher {N} = ! {R}', '== 0', [('[assert]', 'exit-code {N}')]),
+    ('line-matcher', 'def line-matcher {N} = {R} && line-num > 0', 'line-num == 1', [('[assert]', 'stdout any line : {N}'),
+                                                                                     ('[setup]', "file u.txt = 'x' -transformed-by filter {N}")]),
+    ('file-matcher', 'def file-matcher {N} = ! {R}', 'type file', [('[assert]', 'exists -rel-home d : {N}'),
+                                                                  ('[assert]', 'dir-contents -rel-home d : every file : {N}')]),
+    ('files-matcher', 'def files-matcher {N} = {R} || is-empty', 'is-empty', [('[assert]', 'dir-contents -rel-home d : {N}')]),
+    ('files-condition', 'def files-condition {N} = {R}', '{\nx.txt\n}', [('[assert]', 'dir-contents -rel-home d : matches {N}')]),
+    ('files-source', 'def files-source {N} = {R}', '{\nfile a.txt\n}', [('[setup]', 'dir ud = {N}'), ('[cleanup]', 'dir ud = {N}')]),
+    ('text-source', 'def text-source {N} = @[{R}]@', 'plain', [('[setup]', 'file u.txt = @[{N}]@'), ('[setup]', 'stdin = @[{N}]@')]),
+    ('text-source', 'def text-source {N} = @[{R}]@ -transformed-by identity', 'plain', [('[before-assert]', 'file u.txt = @[{N}]@')]),
+    ('text-matcher', 'def text-matcher {N} = {R} && is-empty', 'is-empty', [('[assert]', 'stdout {N}'), ('[assert]', 'contents -rel-home in.txt : {N}')]),
+    ('text-matcher', 'def text-matcher {N} = -transformed-by identity {R}', 'is-empty', [('[assert]', 'stderr {N}')]),
+    ('text-transformer', 'def text-transformer {N} = {R} | identity', 'identity', [('[assert]', 'stdout -transformed-by {N} is-empty'),
+                                                                                   ('[cleanup]', "file u.txt = 'x' -transformed-by {N}")]),
+    ('program', 'def program {N} = @ {R} arg', '% echo', [('[setup]', 'run @ {N}'), ('[act]', '@ {N}'), ('[assert]', 'stdout -from @ {N}\nis-empty')]),
+]
+DEF_PHASES = ['[setup]', '[before-assert]', '[assert]', '[cleanup]']
+PHASE_RANK = {'[setup]': 1, '[act]': 2, '[before-assert]': 3, '[assert]': 4, '[cleanup]': 5}
+
+
+def reference_order_cases(ctx):
+    """(label, text): definitions that refer to themselves, to a symbol defined later, or to each other - for every type whose value can
+    contain references, in both reference syntaxes - each followed by a use that resolves the symbol: in the next instruction, in a
+    later phase, in [act]"""
+    out = []
+    for ty, d, valid, uses in REF_DEFS:
+        for ph_use, use in uses:
+            # the definition goes into the latest phase that still precedes the use (or the same phase)
+            cands = [p for p in DEF_PHASES if PHASE_RANK[p] <= PHASE_RANK[ph_use]]
+            for ph_def in ([cands[-1]] + ([cands[0]] if cands[0] != cands[-1] else [])):
+                def case(lines_def, tag):
+                    body = [ph_def] + lines_def
+                    if ph_use != ph_def:
+                        body.append(ph_use)
+                    body.append(use.replace('{N}', 'S'))
+                    return ('reference order: %s, %s, used in %s' % (tag, ty, ph_use), '\n'.join(body) + '\n')
+                out.append(case([d.replace('{N}', 'S').replace('{R}', 'S')], 'self reference'))
+                out.append(case([d.replace('{N}', 'S').replace('{R}', 'LATER')], 'reference to a symbol defined after the use')
+                           [:1] + (case([d.replace('{N}', 'S').replace('{R}', 'LATER')], '')[1] + '%s\ndef %s LATER = %s\n' % (
+                    '[cleanup]', ty, valid),))
+                out.append(case([d.replace('{N}', 'S').replace('{R}', 'LATER'), 'def %s LATER = %s' % (ty, valid)],
+                                'reference to the symbol defined by the next instruction'))
+                out.append(case([d.replace('{N}', 'S').replace('{R}', 'T'), d.replace('{N}', 'T').replace('{R}', 'S')], 'mutual reference'))
+                out.append(case([d.replace('{N}', 'A').replace('{R}', 'B'), d.replace('{N}', 'B').replace('{R}', 'S'),
+                                 d.replace('{N}', 'S').replace('{R}', 'A')], 'cycle of three'))
+    return out
+
+
 def inclusion_cases(ctx):
     """(label, text of test.case, extra files): the file-inclusion directive - self inclusion, 2- and 3-cycles, the paths written
     plainly, with `.`, `..`, `sub/..`, absolute and through a symbolic link; a missing file; a directory; an included file with a
@@ -2599,6 +2655,10 @@ def run_fuzz(ctx, res, runner):
     for label, text, offending in systematic_cases(ctx):
         one(text, label, offending)
         res.count('fuzz: ' + label.split(',')[0].split(' [')[0])
+        res.nontrivial.add(('f', text))
+    for label, text in reference_order_cases(ctx):
+        one(text, label)
+        res.count('fuzz: reference-order family')
         res.nontrivial.add(('f', text))
     for label, text, files in inclusion_cases(ctx):
         one(text, label, None, files)
